@@ -455,7 +455,9 @@ func (c *coverer) normalizeCovering(covering *CellUnion) {
 		return
 	}
 	if excess*len(*covering) > 10000 {
-		rc := NewRegionCoverer()
+		// Use this coverer's own parameters, so that the result respects
+		// them as documented.
+		rc := &RegionCoverer{MinLevel: c.minLevel, MaxLevel: c.MaxLevel, LevelMod: c.levelMod, MaxCells: c.maxCells}
 		(*covering) = rc.Covering(covering)
 		return
 	}
